@@ -133,7 +133,10 @@ def handleP18 (toks : List String) : String :=
   | [cmd, style, value, fuel, inp, src] =>
     let cmd? : Option FlagCmd :=
       if cmd == "check" then some .check else if cmd == "compile" then some .compile
-      else if cmd == "run" then some .run else none
+      else if cmd == "run" then some .run
+      -- `lace debug f.asm --minimal --command quit`: the debugger detaches before the first
+      -- instruction; by `C09.debug_transparent` / `quit_hands_over_stdin` the process is `run`
+      else if cmd == "debug" then some .run else none
     match cmd?, parseText value, parseHex fuel, parseBytes inp, parseText src with
     | some cmd, some value, some fuel, some inp, some src =>
       -- N absent; G before the subcommand; B before and after it; S L E J after it
